@@ -7,6 +7,11 @@ ALL = ["C%02d" % i for i in range(1, 21)]
 
 # id -> (category, technique, level text, level note, design ref, engine)
 CHECKS = {
+ "C10": ("model_checking",
+         "bounded-exhaustive enumeration of ordered source lists over a catalogue of independently encoded vector tiles x all presence patterns, with a reference merge on the independently decoded form",
+         "Every ordered pair of 12 catalogue tiles (and every ordered triple: first 6 in quick, all 12 plus 4-tuples over 4 in thorough) is a source list of from_vectortiles_merged; each source holds its tile at one coordinate per presence mask so all 2^k presence patterns occur; sources have mixed compressions and answer with different delays. The merged tile is decoded by the harness's own protobuf decoder and must have exactly the union of layer names, each layer the concatenation of the sources' features in source order with id, geometry type, geometry bytes and property set intact; absent iff no source has a tile; declared and delivered uncompressed; stream = lookups.",
+         "Catalogue of 12 tiles is a representative alphabet (tables with duplicates/unused entries/other order, all value kinds, ids 0 and 2^64-1, extents, empty layer); layer order inside a tile is not compared (HashMap iteration). Differing extents: geometry bytes are compared, not rescaled.",
+         "3/C10", "E-enum"),
  "C04": ("model_checking",
          "exhaustive enumeration of the configuration space (source compression x target x force x format; input x allowed set x goal) with an independent decode oracle",
          "All 120 conversion configurations (3 source compressions x {keep,none,gzip,brotli} x force flag x 5 target formats, MBTiles for its legal pairs) are run through TilesConvertReader and the real writers on a multi-thread runtime over five payloads (1 B .. 300 KiB, incompressible and highly compressible); every output tile is decoded with the compression the output declares by the harness's own gzip/brotli calls and must equal the source payload; the bytes must really be in the declared encoding; metadata must survive. All 3x3 recompress pairs and all 3 x 8 x 3 optimize_compression cells per payload: result in the allowed set, payload preserved, no failure when 'uncompressed' is allowed, no recompression when marked incompressible.",
